@@ -39,6 +39,7 @@ type told struct {
 	v        *val
 	err      error
 	at       int
+	rc       *rcall // the resolver call whose result this notification carries (nil if none identifiable)
 }
 
 // holder is a reference (or a consumer-held reference) that may have been given values.
@@ -69,7 +70,7 @@ type actorCall struct {
 type consumer struct {
 	id        int
 	task      *simrt.Task
-	kind      int // 0 Wait 1 Resolve 2 ResolveWithReleased 3 Access
+	kind      int // 0 Wait 1 Resolve 2 ResolveWithReleased 3 Access 4 AddRefPromise+later Await
 	inCall    bool
 	cancel    context.CancelFunc
 	cancelReq int
@@ -106,8 +107,37 @@ type world struct {
 	ctxChangeRet []int    // stamps at which it returned (0 while in flight)
 	stored       []*rcall // calls whose released() the invalidator may invoke
 	p5           []*rcall
-	byVal        map[*val]*rcall
 	byErr        map[error]*rcall
+}
+
+// rcOfVal identifies the resolver call a value belongs to. A resolver may
+// return the same pointer again (an "equal replacement"), but only after the
+// earlier call's result was released, so at most one unreleased call owns a
+// pointer: that one is meant; otherwise the most recent call that returned it.
+func (w *world) rcOfVal(v *val) *rcall {
+	var last *rcall
+	for _, rc := range w.calls {
+		if rc.v == v && rc.returned != 0 {
+			if rc.rel == 0 {
+				return rc
+			}
+			last = rc
+		}
+	}
+	return last
+}
+
+func (w *world) rcOfTold(resolved bool, v *val, err error) *rcall {
+	if !resolved {
+		return nil
+	}
+	if v != nil {
+		return w.rcOfVal(v)
+	}
+	if err != nil {
+		return w.byErr[err]
+	}
+	return nil
 }
 
 func (w *world) invalidated(rc *rcall, before int) bool {
@@ -153,13 +183,13 @@ func (w *world) mkRelease(rc *rcall) func() {
 				continue
 			}
 			l := h.last()
-			if l != nil && l.resolved && ((rc.v != nil && l.v == rc.v) || (rc.v == nil && rc.err != nil && l.err == rc.err)) {
+			if l != nil && l.resolved && l.rc == rc {
 				c.Fail("C08.E2.reference-not-told", "the release function of resolver call %d runs although reference %d, which is still held, was last told that this result is current", rc.n, h.id)
 				return
 			}
 			// E3: a held reference was given this value and nothing invalidated it
 			for _, t := range h.told {
-				if t.resolved && ((rc.v != nil && t.v == rc.v) || (rc.v == nil && rc.err != nil && t.err == rc.err)) {
+				if t.resolved && t.rc == rc {
 					if !w.invalidated(rc, now) {
 						c.Fail("C08.E3.released-while-referenced", "the result of resolver call %d was released while reference %d, which had been given it, is still held and no invalidation (released(), context change) had been requested", rc.n, h.id)
 						return
@@ -188,8 +218,15 @@ func (w *world) resolver(ctx context.Context, released func()) (*val, func(), er
 	c.Descf("resolver call %d: behaviour %d", rc.n, beh)
 	mkVal := func() (*val, func(), error) {
 		rc.v = &val{id: rc.n}
+		// equal replacement: hand out the previous value's pointer again (only
+		// if that earlier result has been released, so ownership stays unique)
+		if rc.n > 1 && c.S.PlanP(250) {
+			if prev := w.calls[rc.n-2]; prev.v != nil && prev.returned != 0 && prev.rel > 0 {
+				rc.v = prev.v
+				c.S.Count("probe:equal-replacement")
+			}
+		}
 		rc.hasRel = true
-		w.byVal[rc.v] = rc
 		return rc.v, w.mkRelease(rc), nil
 	}
 	switch beh {
@@ -261,7 +298,7 @@ func (w *world) refHolder(id, nops int) {
 		var cb func(bool, *val, error)
 		if h.recording {
 			cb = func(resolved bool, v *val, err error) {
-				h.told = append(h.told, told{resolved, v, err, c.Tick()})
+				h.told = append(h.told, told{resolved, v, err, c.Tick(), w.rcOfTold(resolved, v, err)})
 			}
 		} else {
 			c.S.Count("fault:nil-arg")
@@ -487,7 +524,7 @@ func (w *world) checkQuiescent(final bool) {
 	// no recording reference may believe in a released value
 	for _, h := range rec {
 		if l := h.last(); l != nil && l.resolved && l.v != nil {
-			if rc := w.byVal[l.v]; rc != nil && rc.rel > 0 {
+			if rc := l.rc; rc != nil && rc.rel > 0 && w.rcOfVal(l.v) == rc {
 				c.Fail("C08.E2.reference-not-told", "at a quiescent point reference %d still believes value %d is current although it has been released", h.id, rc.n)
 				return
 			}
@@ -515,7 +552,7 @@ func (w *world) heldThroughout(since int) bool {
 }
 
 func run(c *core.Ctx) {
-	w := &world{c: c, byVal: map[*val]*rcall{}, byErr: map[error]*rcall{}}
+	w := &world{c: c, byErr: map[error]*rcall{}}
 	c.PanicOracle = "C09.P2.panic"
 	c.SpinOracle = "C10.SPIN.busy-wait"
 	c.PanicClassify = func(text string) string {
@@ -554,7 +591,7 @@ func run(c *core.Ctx) {
 	}
 	nc := c.IntRange(0, 2)
 	for i := 0; i < nc; i++ {
-		x := &consumer{id: i, kind: c.S.Plan(4)}
+		x := &consumer{id: i, kind: c.S.Plan(5)}
 		w.consumers = append(w.consumers, x)
 		x.task = c.Actor("consumer", func() { w.runConsumer(x) })
 		tasks = append(tasks, x.task)
